@@ -181,36 +181,66 @@ def _quat(c, s):
     return Quaternion(axis=[0.0, 0.0, 1.0], radians=math.atan2(float(s), float(c)))
 
 
-def mk_obj(B, frame="base_link"):
+REPS = ("tuple", "list", "ndarray", "int")
+
+
+def _vec(vals, rep):
+    """the same three numbers in another REPRESENTATION: tuple of floats (default), list, numpy array, or -- when every value is
+    integral -- a tuple of Python ints (what a caller reading whole metres from a JSON file hands over)"""
+    f = [float(v) for v in vals]
+    if rep == "list":
+        return list(f)
+    if rep == "ndarray":
+        import numpy as np
+
+        return np.array(f)
+    if rep == "int" and all(v.is_integer() for v in f):
+        return tuple(int(v) for v in f)
+    return tuple(f)
+
+
+def mk_obj(B, frame="base_link", rep="tuple", qsign=1):
     from perception_eval.common.label import AutowareLabel, Label
     from perception_eval.common.object import DynamicObject
     from perception_eval.common.schema import FrameID
     from perception_eval.common.shape import Shape, ShapeType
 
+    q = _quat(B["c"], B["s"])
     return DynamicObject(
         unix_time=100, frame_id=FrameID.BASE_LINK if frame == "base_link" else FrameID.MAP,
-        position=(float(B["x"]), float(B["y"]), float(B["z"])), orientation=_quat(B["c"], B["s"]),
-        shape=Shape(ShapeType.BOUNDING_BOX, (float(B["w"]), float(B["l"]), float(B["h"]))),
+        position=_vec((B["x"], B["y"], B["z"]), rep), orientation=-q if qsign < 0 else q,
+        shape=Shape(ShapeType.BOUNDING_BOX, _vec((B["w"], B["l"], B["h"]), rep)),
         velocity=(0.0, 0.0, 0.0), semantic_score=0.5, semantic_label=Label(AutowareLabel.CAR, "car", []))
 
 
-def derive_obj(o, B):
+def derive_obj(o, B, rep="tuple", qsign=1):
     """deepcopy + state update, as common/dataset.py and common/geometry.py derive interpolated / converted objects"""
     import copy
 
     o2 = copy.deepcopy(o)
-    o2.state.position = (float(B["x"]), float(B["y"]), float(B["z"]))
-    o2.state.orientation = _quat(B["c"], B["s"])
+    o2.state.position = _vec((B["x"], B["y"], B["z"]), rep)
+    q = _quat(B["c"], B["s"])
+    o2.state.orientation = -q if qsign < 0 else q
     return o2
 
 
-def mk_obj2d(r):
+def mk_obj2d(r, rep="tuple", position=None):
+    """rep: the ROI as a tuple / list of Python ints or a numpy int64 array; position: an optional 3D position of the 2D object
+    (DynamicObject2D(position=...)), which no 2D score may read"""
     from perception_eval.common.label import AutowareLabel, Label
     from perception_eval.common.object2d import DynamicObject2D
     from perception_eval.common.schema import FrameID
 
+    roi = tuple(int(v) for v in r)
+    if rep == "list":
+        roi = list(roi)
+    elif rep == "ndarray":
+        import numpy as np
+
+        roi = np.array(roi, dtype=np.int64)
+    kw = {} if position is None else {"position": tuple(float(v) for v in position)}
     return DynamicObject2D(unix_time=100, frame_id=FrameID.CAM_FRONT, semantic_score=0.5,
-                           semantic_label=Label(AutowareLabel.CAR, "car", []), roi=tuple(int(v) for v in r))
+                           semantic_label=Label(AutowareLabel.CAR, "car", []), roi=roi, **kw)
 
 
 def _idx(points, p):
@@ -227,20 +257,58 @@ def ego_transforms(m):
     return TransformDict(HomogeneousMatrix((float(tx), float(ty), float(tz)), _quat(c, s), src=FrameID.BASE_LINK, dst=FrameID.MAP))
 
 
+def scores3d_map_derived(Em, Gm, m, re_, rg_, qe, qg):
+    """The map rendering built the way interpolate_ground_truth_frames derives a frame: map-frame objects and a registry that have ALREADY
+    been scored under ANOTHER ego pose; the registry is then updated in place and the objects are deep-copied with their state updated.
+    Only the current pose and the current states may count."""
+    from perception_eval.common.schema import FrameID
+
+    other = {"r": [3, 4, 5] if list(m["r"]) != [3, 4, 5] else [5, 12, 13], "t": [m["t"][0] + 60, m["t"][1] - 26, m["t"][2]]}
+    reg = ego_transforms(other)
+    e0, g0 = mk_obj(moved(other, Em), "map", re_, qe), mk_obj(moved(other, Gm), "map", rg_, qg)
+    scores3d(e0, g0, reg)                                      # warms whatever the registry / the objects may keep
+    reg[(FrameID.BASE_LINK, FrameID.MAP)] = ego_transforms(m)[(FrameID.BASE_LINK, FrameID.MAP)]
+    return scores3d(derive_obj(e0, Em, re_, -qe), derive_obj(g0, Gm, rg_, -qg), reg)
+
+
 def scores3d(e, g, transforms=None):
     from perception_eval.common.point import polygon_to_list
     from perception_eval.evaluation.matching.object_matching import (CenterDistanceMatching, IOU2dMatching,
                                                                      IOU3dMatching, PlaneDistanceMatching)
 
+    from perception_eval.evaluation.result.object_result import DynamicObjectWithPerceptionResult
+
     pm = PlaneDistanceMatching(e, g, transforms)
     gc = polygon_to_list(g.get_footprint())
     ec = polygon_to_list(e.get_footprint())
+    # the second documented entry point: the scores the pipeline reads off an object result (oracle only: must be the very same numbers)
+    r = DynamicObjectWithPerceptionResult(e, g, transforms=transforms)
+    rp = r.plane_distance
+    via = {"cd": float(r.center_distance.value), "pd": float(rp.value), "i2": float(r.iou_2d.value), "i3": float(r.iou_3d.value),
+           "gl": _idx(gc, rp.ground_truth_nn_plane[0]), "gr": _idx(gc, rp.ground_truth_nn_plane[1]),
+           "el": _idx(ec, rp.estimated_nn_plane[0]), "er": _idx(ec, rp.estimated_nn_plane[1])}
     return {
         "cd": float(CenterDistanceMatching(e, g, transforms).value), "pd": float(pm.value),
         "i2": float(IOU2dMatching(e, g, transforms).value), "i3": float(IOU3dMatching(e, g, transforms).value),
         "gl": _idx(gc, pm.ground_truth_nn_plane[0]), "gr": _idx(gc, pm.ground_truth_nn_plane[1]),
         "el": _idx(ec, pm.estimated_nn_plane[0]), "er": _idx(ec, pm.estimated_nn_plane[1]),
+        "via_result": via,
     }
+
+
+def via_result_mismatch(o, what):
+    """DynamicObjectWithPerceptionResult.{center_distance,iou_2d,iou_3d,plane_distance} hold the scores of (estimate, ground truth):
+    the same deterministic computation on the same two objects, hence the identical floats"""
+    v = o.get("via_result")
+    if v is None:
+        return None
+    for k, nm in (("cd", "center_distance.value"), ("pd", "plane_distance.value"), ("i2", "iou_2d.value"), ("i3", "iou_3d.value"),
+                  ("gl", "plane_distance.ground_truth_nn_plane[0]"), ("gr", "plane_distance.ground_truth_nn_plane[1]"),
+                  ("el", "plane_distance.estimated_nn_plane[0]"), ("er", "plane_distance.estimated_nn_plane[1]")):
+        if v[k] != o[k]:
+            return (f"{what}: DynamicObjectWithPerceptionResult(estimate, ground_truth, transforms).{nm} = {v[k]!r} but the matching class "
+                    f"applied to (estimate, ground_truth) gives {o[k]!r}")
+    return None
 
 
 # ------------------------------------------------------------------------------------------------
@@ -369,6 +437,13 @@ def gen_pair(rng, tag):
             gp = [k, k if kind == "diag_square" else -k, gp[2]]
         es = [max(1, gs[0] + rng.randint(-6, 6)), max(1, gs[1] + rng.randint(-6, 6)), gs[2]]
         ep = [gp[0] + rng.randint(-8, 8), gp[1] + rng.randint(-8, 8), gp[2]]
+    elif tag == "integral":
+        # whole metres everywhere (multiples of 8 on the lattice), odd sizes included: these are handed to the library as Python ints
+        gp = [8 * rng.randint(-40, 40), 8 * rng.randint(-40, 40), 8 * rng.randint(-2, 2)]
+        gs = [8 * rng.randint(1, 7), 8 * rng.randint(1, 9), 8 * rng.randint(1, 4)]
+        es = [8 * max(1, gs[0] // 8 + rng.randint(-1, 1)), 8 * max(1, gs[1] // 8 + rng.randint(-2, 2)), 8 * rng.randint(1, 4)]
+        ep = [gp[0] + 8 * rng.randint(-3, 3), gp[1] + 8 * rng.randint(-2, 2), gp[2] + 8 * rng.randint(-1, 1)]
+        er = gr if rng.random() < 0.4 else _rot(rng)
     else:
         raise ValueError(tag)
     return {"p": ep, "r": list(er), "s": es}, {"p": gp, "r": list(gr), "s": gs}
@@ -390,7 +465,7 @@ def gen_pair_float(rng):
 
 
 TAGS = [("typical", 10), ("nested", 3), ("touching", 3), ("corner_touching", 1), ("disjoint", 2), ("near_disjoint", 3),
-        ("sliver", 3), ("identical", 2), ("height", 3), ("tie", 3)]
+        ("sliver", 3), ("identical", 2), ("height", 3), ("tie", 3), ("integral", 3)]
 
 
 def _exactly_representable(B):
@@ -445,21 +520,39 @@ class Box3dCorr(Corr):
             tag = rng.choice(pool)
             e, g = gen_pair(rng, tag)
             c = {"tag": tag, "e": e, "g": g, "m": _mot(rng)}
+            if tag == "integral":
+                # integral motion too (axis rotation, whole metres), so that the moved and the map rendering are int-typed as well
+                c["m"] = {"r": list(rng.choice(AXIS)), "t": [8 * rng.randint(-30, 30), 8 * rng.randint(-30, 30), 8 * rng.randint(-1, 1)]}
+            self._representation(c, rng)
             if acceptable(c):
                 out.append(c)
         while len(out) < n:
             e, g = gen_pair_float(rng)
             c = {"tag": "continuous", "e": e, "g": g, "m": _mot(rng)}
+            self._representation(c, rng)
             if acceptable(c):
                 out.append(c)
         head, tail = out[:n_reg], out[n_reg:]
         rng.shuffle(tail)                      # spread the (costlier) continuous cases over the coqc shards
         return head + tail
 
+    @staticmethod
+    def _representation(c, rng):
+        """how the numbers are handed to the library (estimate, ground truth): tuple / list / numpy array of floats, Python ints when
+        integral; and the sign of each quaternion (q and -q are the same rotation)"""
+        if c["tag"] == "integral":
+            c["rep"] = [rng.choice(("int", "int", "list", "ndarray")), rng.choice(("int", "int", "tuple"))]
+        else:
+            c["rep"] = [rng.choice(REPS[:3]) if rng.random() < 0.4 else "tuple", rng.choice(REPS[:3]) if rng.random() < 0.4 else "tuple"]
+        c["qs"] = [rng.choice((1, 1, -1)), rng.choice((1, 1, -1))]
+        c["warm"] = rng.random() < 0.5
+
     # -- implementation -------------------------------------------------------------------------
     def run_impl(self, case):
         E, G = params(case["e"]), params(case["g"])
-        e, g = mk_obj(E), mk_obj(G)
+        re_, rg_ = case.get("rep", ["tuple", "tuple"])
+        qe, qg = case.get("qs", [1, 1])
+        e, g = mk_obj(E, rep=re_, qsign=qe), mk_obj(G, rep=rg_, qsign=qg)
         obs = scores3d(e, g)
         sw = scores3d(g, e)
         obs["sw"] = {k: sw[k] for k in ("cd", "i2", "i3")}
@@ -467,16 +560,22 @@ class Box3dCorr(Corr):
         # the moved pair: half of the cases build it the way the library derives objects (interpolation, frame conversion): a deepcopy of
         # the ALREADY SCORED object whose state is then updated -- the scores must follow the current state
         if (len(case["e"].get("p", case["e"].get("pf", [0]))) + int(abs(float(E["x"])) * 8) + int(abs(float(G["y"])) * 8)) % 2 == 0:
-            obs["mv"] = scores3d(derive_obj(e, Em), derive_obj(g, Gm))
+            obs["mv"] = scores3d(derive_obj(e, Em, rg_, qg), derive_obj(g, Gm, re_, qe))
             obs["mv_derived"] = True
         else:
-            obs["mv"] = scores3d(mk_obj(Em), mk_obj(Gm))
+            obs["mv"] = scores3d(mk_obj(Em, rep=rg_, qsign=qg), mk_obj(Gm, rep=re_, qsign=qe))
         # the SAME physical pair (E, G in the ego frame) rendered in the MAP frame through the ego pose m, with the frame's transforms:
         # the ground truth's nearest side must still be the one nearest to the EGO (object_matching.py: corners transformed back)
         # (skipped when the 2nd and 3rd nearest ground-truth corners are tied or nearly tied in the ego frame: the distances recovered
         # through the transform carry rounding noise, so the choice of the side is not determined on floats)
         _, tie23, near, _ = plane_candidates(E, G)
-        obs["map"] = None if (tie23 or near) else scores3d(mk_obj(Em, "map"), mk_obj(Gm, "map"), ego_transforms(case["m"]))
+        if tie23 or near:
+            obs["map"] = None
+        elif case.get("warm"):
+            obs["map"] = scores3d_map_derived(Em, Gm, case["m"], re_, rg_, qe, qg)
+            obs["map_derived"] = True
+        else:
+            obs["map"] = scores3d(mk_obj(Em, "map", re_, -qe), mk_obj(Gm, "map", rg_, -qg), ego_transforms(case["m"]))
         return obs
 
     # -- model ----------------------------------------------------------------------------------
@@ -588,6 +687,10 @@ class Box3dCorr(Corr):
                  if obs["map"] is not None else None))
         if r:
             return r
+        r = (via_result_mismatch(obs, "pair") or via_result_mismatch(obs["mv"], "moved pair")
+             or (via_result_mismatch(obs["map"], "pair rendered in the map frame") if obs["map"] is not None else None))
+        if r:
+            return r
         # symmetry in the arguments
         for k in ("cd", "i2", "i3"):
             if abs(obs[k] - obs["sw"][k]) > TOL * max(1.0, abs(obs[k])):
@@ -608,13 +711,22 @@ class Box3dCorr(Corr):
     def distribution(self, cases, obs):
         d = {"tags": {}, "rotated_pairs": 0, "axis_aligned_pairs": 0, "iou2_zero": 0, "iou2_between": 0, "iou2_one": 0,
              "iou3_zero_iou2_pos": 0, "exact_tie_2nd_3rd": 0, "tie_resolved_like_stable_sort": 0, "pure_rotation_motions": 0,
-             "max_size_ratio": 0.0, "lr_compared_ordered": 0, "map_frame_renderings": 0, "moved_pair_derived_by_deepcopy_and_state_update": 0}
+             "max_size_ratio": 0.0, "lr_compared_ordered": 0, "map_frame_renderings": 0, "moved_pair_derived_by_deepcopy_and_state_update": 0,
+             "scores_also_read_off_DynamicObjectWithPerceptionResult": 0, "representations": {}, "negated_quaternion": 0, "int_typed_position_and_size": 0,
+             "map_rendering_derived_from_scored_objects_and_updated_registry": 0}
         for c, o in zip(cases, obs):
             if "__harness_exception__" in o:
                 continue
             d["tags"][c["tag"]] = d["tags"].get(c["tag"], 0) + 1
             d["map_frame_renderings"] += o.get("map") is not None
             d["moved_pair_derived_by_deepcopy_and_state_update"] += bool(o.get("mv_derived"))
+            d["map_rendering_derived_from_scored_objects_and_updated_registry"] += bool(o.get("map_derived"))
+            d["scores_also_read_off_DynamicObjectWithPerceptionResult"] += ("via_result" in o) + ("via_result" in o["mv"]) + ("via_result" in (o.get("map") or {}))
+            for rp in c.get("rep", ["tuple", "tuple"]):
+                d["representations"][rp] = d["representations"].get(rp, 0) + 1
+            d["negated_quaternion"] += sum(1 for q in c.get("qs", [1, 1]) if q < 0)
+            d["int_typed_position_and_size"] += sum(
+                1 for rp, b in zip(c.get("rep", []), (c["e"], c["g"])) if rp == "int" and "p" in b and all(k % 8 == 0 for k in b["p"] + b["s"]))
             E, G = params(c["e"]), params(c["g"])
             aa = E["s"] == 0 and G["s"] == 0
             d["axis_aligned_pairs" if aa else "rotated_pairs"] += 1
@@ -686,21 +798,34 @@ class Roi2dCorr(Corr):
         while len(out) < n:
             tag = rng.choice(pool)
             a, b = gen_roi_pair(rng, tag)
-            out.append({"tag": tag, "a": a, "b": b, "t": [rng.randint(-500, 500), rng.randint(-500, 500)]})
+            c = {"tag": tag, "a": a, "b": b, "t": [rng.randint(-500, 500), rng.randint(-500, 500)]}
+            # representation of the ROI (tuple / list of ints, numpy int64 array) and, for half of the pairs, a 3D position on the 2D
+            # objects (k/8 m, unrelated to the ROI): "ROI centers in 2D" -- no 2D score may read it
+            c["rep"] = [rng.choice(REPS[:3]) if rng.random() < 0.5 else "tuple" for _ in range(2)]
+            if rng.random() < 0.5:
+                c["pos"] = [[rng.randint(-400, 400) / 8 for _ in range(3)] if rng.random() < 0.8 else None for _ in range(2)]
+            out.append(c)
         return out
 
     def run_impl(self, case):
         from perception_eval.evaluation.matching.object_matching import CenterDistanceMatching, IOU2dMatching
+        from perception_eval.evaluation.result.object_result import DynamicObjectWithPerceptionResult
 
-        a, b = mk_obj2d(case["a"]), mk_obj2d(case["b"])
+        ra, rb = case.get("rep", ["tuple", "tuple"])
+        pa, pb = case.get("pos", [None, None])
+        a, b = mk_obj2d(case["a"], ra, pa), mk_obj2d(case["b"], rb, pb)
         tx, ty = case["t"]
-        at = mk_obj2d([case["a"][0] + tx, case["a"][1] + ty] + case["a"][2:])
-        bt = mk_obj2d([case["b"][0] + tx, case["b"][1] + ty] + case["b"][2:])
+        at = mk_obj2d([case["a"][0] + tx, case["a"][1] + ty] + case["a"][2:], rb, pb)
+        bt = mk_obj2d([case["b"][0] + tx, case["b"][1] + ty] + case["b"][2:], ra, pa)
+        r = DynamicObjectWithPerceptionResult(a, b)
         return {
             "cd": float(CenterDistanceMatching(a, b).value), "iou": float(IOU2dMatching(a, b).value),
             "cd_sw": float(CenterDistanceMatching(b, a).value), "iou_sw": float(IOU2dMatching(b, a).value),
             "cd_mv": float(CenterDistanceMatching(at, bt).value), "iou_mv": float(IOU2dMatching(at, bt).value),
             "ca": [int(v) for v in a.roi.center], "cb": [int(v) for v in b.roi.center],
+            # the second documented entry point (oracle only)
+            "via_result": {"cd": float(r.center_distance.value), "iou": float(r.iou_2d.value),
+                           "iou_3d_is_none": r.iou_3d is None, "plane_distance_is_none": r.plane_distance is None},
         }
 
     @staticmethod
@@ -744,6 +869,13 @@ class Roi2dCorr(Corr):
             return f"identical ROIs but IoU = {obs['iou']!r}"
         if inter == 0 and obs["iou"] != 0.0:
             return f"disjoint ROIs but IoU = {obs['iou']!r}"
+        v = obs.get("via_result")
+        if v is not None:
+            if v["cd"] != obs["cd"] or v["iou"] != obs["iou"]:
+                return (f"DynamicObjectWithPerceptionResult(estimate, ground_truth).center_distance/iou_2d = ({v['cd']!r}, {v['iou']!r}) but the "
+                        f"matching classes applied to (estimate, ground_truth) give ({obs['cd']!r}, {obs['iou']!r})")
+            if not (v["iou_3d_is_none"] and v["plane_distance_is_none"]):
+                return "DynamicObjectWithPerceptionResult of two 2D objects carries a 3D IoU / plane distance (documented: None in 2D evaluation)"
         if obs["cd"] != obs["cd_sw"] or obs["iou"] != obs["iou_sw"]:
             return f"not symmetric: ({obs['cd']!r}, {obs['iou']!r}) vs ({obs['cd_sw']!r}, {obs['iou_sw']!r}) with swapped arguments"
         if obs["cd"] != obs["cd_mv"] or abs(obs["iou"] - obs["iou_mv"]) > 1e-12:
@@ -754,11 +886,16 @@ class Roi2dCorr(Corr):
         return case["a"] != case["b"] and (0.0 < obs["iou"] < 1.0 or obs["cd"] > 0.0)
 
     def distribution(self, cases, obs):
-        d = {"tags": {}, "iou_zero": 0, "iou_between": 0, "iou_one": 0, "odd_size": 0, "perfect_square_distance": 0}
+        d = {"tags": {}, "iou_zero": 0, "iou_between": 0, "iou_one": 0, "odd_size": 0, "perfect_square_distance": 0,
+             "roi_representations": {}, "objects_with_a_3d_position": 0, "scores_also_read_off_DynamicObjectWithPerceptionResult": 0}
         for c, o in zip(cases, obs):
             if "__harness_exception__" in o:
                 continue
             d["tags"][c["tag"]] = d["tags"].get(c["tag"], 0) + 1
+            for rp in c.get("rep", ["tuple", "tuple"]):
+                d["roi_representations"][rp] = d["roi_representations"].get(rp, 0) + 1
+            d["objects_with_a_3d_position"] += sum(1 for q in c.get("pos", []) if q is not None)
+            d["scores_also_read_off_DynamicObjectWithPerceptionResult"] += "via_result" in o
             d["iou_zero" if o["iou"] == 0 else ("iou_one" if o["iou"] == 1 else "iou_between")] += 1
             if any(v % 2 for v in c["a"][2:] + c["b"][2:]):
                 d["odd_size"] += 1
@@ -795,7 +932,9 @@ class C06(Prop):
                   "cases, rigid-invariant and IoU3D <= IoU2D with NO hypothesis (general polygon lemmas: a clipping pass keeps convex CCW polygons "
                   "convex CCW and never increases the shoelace sum, a line cut is additive, Green's formula for one pass, monotonicity under "
                   "containment). What ties shapely to that evaluator is the correspondence: every run compares IoU2D/IoU3D with the exact "
-                  "clipper inside Coq and with an independent exact hull-based intersection in the Python oracle, within 1e-9.")
+                  "clipper inside Coq and with an independent exact hull-based intersection in the Python oracle, within 1e-9. "
+                  "Oracle-only observations: the scores held by DynamicObjectWithPerceptionResult equal the matching classes' values exactly; input "
+                  "representation (tuple/list/ndarray/int), quaternion sign, a 3D position on 2D objects and a re-used registry / derived objects do not change any score.")
     level_note = ("partial in one respect only: that the shoelace sum of the clipped polygon IS the Lebesgue measure of the intersection of two "
                   "rotated rectangles is not stated (no measure theory installed); all IoU laws of the property are theorems about the exact "
                   "evaluator, and shapely is tied to the evaluator by the per-run comparison (1e-9). Distances are compared squared (no sqrt in Q). "
@@ -804,7 +943,12 @@ class C06(Prop):
             "typical/nested/touching/corner-touching/disjoint/near-disjoint/sliver (to 1:200)/identical/height/tie + a continuous stream (1/25 of "
             "the cases: arbitrary binary64 centres, yaw angles and sizes 0.05..30 m, passed to Coq as exact rationals), each also swapped and after a "
             "common rigid motion (half of them pure rotations about the ego) and rendered in the MAP frame through that motion as ego pose with the frame's transforms; roi2d: integer ROI pairs incl. odd/even sizes, 1-pixel ROIs, "
-            "touching, nested, each also swapped and translated; non-trivial = different boxes with 0 < IoU < 1 or a positive distance")
+            "touching, nested, each also swapped and translated; non-trivial = different boxes with 0 < IoU < 1 or a positive distance; "
+            "every score is also read off DynamicObjectWithPerceptionResult(estimate, ground truth, transforms) (3D and 2D; iou_3d / plane_distance None in 2D) "
+            "and must be the identical number; positions / sizes / ROIs are handed over as tuple, list or numpy array and, in the `integral` stream (whole "
+            "metres, odd sizes, axis motions), as Python ints; either sign of each quaternion (the map rendering carries the opposite sign of the ego one); "
+            "half of the map renderings are derived by deepcopy + state update from map objects already scored under ANOTHER ego pose through a registry "
+            "that is then updated in place; half of the ROI pairs carry an unrelated 3D position on the 2D objects (ROI centres, not state.position)")
     assumptions = [
         "shapely's footprint.intersection(footprint).area agrees with the exact evaluator inter_clip within 1e-9 (checked on every generated pair, "
         "every run); the hypotheses of the abstract C06_iou_* theorems are PROVED for inter_clip (Props/C06Clip.v: C06_clip_inter_satisfies_hypotheses)",
